@@ -17,6 +17,11 @@ open GocoinV.Conc GocoinV.ConcEv GocoinV.Proofs.C11
     or atomically / after `wg.Wait()` — up to the explicitly listed, separately justified exceptions. -/
 theorem accessed_under_lock : allDisciplined = true := by decide +kernel
 
+/-- sanity of the checker on hand-made sequences: a `frozen` variable written after the first spawn, a `workers` variable
+    written plainly by the spawner while workers may run, and a captured local without a guard are all reported -/
+example : unguarded [(1, .frozen)] [.wr 1, .goBegin, .rd 1, .goEnd, .wr 1] = [(1, true)] := by decide
+example : unguarded [(1, .workers 2 0)] [.wr 1, .goBegin, .atomic 1, .wgDone 2, .goEnd, .wr 1, .wgWait 2, .rd 1] = [(1, true)] := by decide
+
 /-- The protocol-shape facts the transition systems were written for hold of the current source:
     abortWriting precedes every mutation and is called under db.Mutex, abortWriting/Save/Close have the modelled
     shape, save waits for the previous file goroutine, clears WritingInProgress before writingDone.Done,
